@@ -12,6 +12,7 @@ import (
 	"servitor/pub"
 	"servitor/verifkit"
 	"servitor/verifsim"
+	"sync"
 	"testing"
 	"time"
 )
@@ -43,9 +44,13 @@ func (v verifItem) Timestamp() time.Time {
 type verifSource struct {
 	items []pub.Tangible
 	page  int // at most this many per call (servers page their collections)
+	slow  bool
 }
 
 func (s *verifSource) Harvest(quantity uint, start uint) ([]pub.Tangible, pub.Container, uint) {
+	if s.slow {
+		time.Sleep(300 * time.Microsecond)
+	}
 	if int(start) >= len(s.items) {
 		return []pub.Tangible{}, nil, 0
 	}
@@ -73,8 +78,12 @@ type verifSession struct {
 	Calls   []verifCall `json:"calls"`
 }
 
-func verifRun(out *verifkit.Trace, sid int, in verifSession) {
-	out.Emit(verifkit.M{"ev": "reset", "sid": sid, "sources": in.Sources, "failed": in.Failed})
+func verifRun(out *verifkit.Trace, sid int, in verifSession) { verifRunTwice(out, sid, in, false) }
+
+/* twice: every call is made by two goroutines at the same time on the same continuation (a Splicer value is
+   immutable, so both must get the same, correct answer and both continuations must be good) */
+func verifRunTwice(out *verifkit.Trace, sid int, in verifSession, twice bool) {
+	out.Emit(verifkit.M{"ev": "reset", "sid": sid, "sources": in.Sources, "failed": in.Failed, "twice": twice})
 	s := make(Splicer, len(in.Sources))
 	for i, tss := range in.Sources {
 		items := make([]pub.Tangible, len(tss))
@@ -82,7 +91,7 @@ func verifRun(out *verifkit.Trace, sid int, in verifSession) {
 			items[k] = verifItem{i + 1, k + 1, ts}
 		}
 		s[i].elements = []pub.Tangible{}
-		s[i].page = &verifSource{items: items}
+		s[i].page = &verifSource{items: items, slow: twice}
 		for _, f := range in.Failed {
 			if f == i+1 {
 				s[i].page = nil
@@ -95,28 +104,50 @@ func verifRun(out *verifkit.Trace, sid int, in verifSession) {
 			continue
 		}
 		cont := conts[c.On-1]
-		var items []pub.Tangible
-		var next pub.Container
-		panicked, what := verifkit.Try(func() { items, next, _ = cont.Harvest(c.Q, c.Start) })
-		tags := [][]int{}
-		for _, it := range items {
-			if v, ok := it.(verifItem); ok {
-				tags = append(tags, []int{v.s, v.k, v.ts})
-			} else {
-				tags = append(tags, []int{0, 0, 0})
+		type answer struct {
+			items    []pub.Tangible
+			next     pub.Container
+			panicked bool
+			what     string
+		}
+		askers := 1
+		if twice {
+			askers = 2
+		}
+		answers := make([]answer, askers)
+		var wg sync.WaitGroup
+		for a := range answers {
+			a := a
+			wg.Add(1)
+			go func() {
+				defer wg.Done()
+				answers[a].panicked, answers[a].what = verifkit.Try(func() { answers[a].items, answers[a].next, _ = cont.Harvest(c.Q, c.Start) })
+			}()
+		}
+		wg.Wait()
+		stop := false
+		for _, ans := range answers {
+			tags := [][]int{}
+			for _, it := range ans.items {
+				if v, ok := it.(verifItem); ok {
+					tags = append(tags, []int{v.s, v.k, v.ts})
+				} else {
+					tags = append(tags, []int{0, 0, 0})
+				}
+			}
+			ev := verifkit.M{"ev": "call", "on": c.On, "q": c.Q, "start": c.Start, "items": tags, "done": ans.next == nil, "panic": ans.panicked}
+			if ans.panicked {
+				ev["what"] = ans.what
+				stop = true
+			}
+			out.Emit(ev)
+			/* exactly what ui does: the continuation is kept and used iff it is not nil */
+			if ans.next != nil {
+				conts = append(conts, ans.next)
 			}
 		}
-		ev := verifkit.M{"ev": "call", "on": c.On, "q": c.Q, "start": c.Start, "items": tags, "done": next == nil, "panic": panicked}
-		if panicked {
-			ev["what"] = what
-		}
-		out.Emit(ev)
-		if panicked {
+		if stop {
 			return
-		}
-		/* exactly what ui does: the continuation is kept and used iff it is not nil */
-		if next != nil {
-			conts = append(conts, next)
 		}
 	}
 }
@@ -149,8 +180,19 @@ func verifRunServed(out *verifkit.Trace, sim *verifsim.Sim, rng *rand.Rand, sid 
 		for _, f := range in.Failed {
 			failed = failed || f == i+1
 		}
+		/* a source is a collection, or an actor listed by its address (then the feed takes the actor's outbox) */
+		asActor := rng.Intn(2) == 0
+		actorURL := h.URL(root + "/actor")
 		if failed {
-			continue /* nothing is served there: 404 */
+			switch rng.Intn(3) {
+			case 0: /* an actor without an outbox */
+				serve(h, root+"/actor", map[string]any{"type": "Person", "name": "quiet", "preferredUsername": "quiet"}, 0)
+				inputs[i] = actorURL
+			case 1: /* an actor whose outbox cannot be fetched */
+				serve(h, root+"/actor", map[string]any{"type": "Person", "name": "broken", "preferredUsername": "broken", "outbox": h.URL(root + "/missing")}, 0)
+				inputs[i] = actorURL
+			}
+			continue /* otherwise nothing is served there: 404 */
 		}
 		items := make([]any, len(tss))
 		for k, ts := range tss {
@@ -159,6 +201,18 @@ func verifRunServed(out *verifkit.Trace, sim *verifsim.Sim, rng *rand.Rand, sid 
 				note["published"] = fmt.Sprintf("2024-01-01T%02d:00:00Z", ts)
 			}
 			items[k] = note
+			if asActor {
+				/* an outbox holds activities of its actor */
+				act := map[string]any{"id": h.URL(fmt.Sprintf("%s/a%d", root, k+1)), "type": "Create", "actor": actorURL, "object": note}
+				if ts != 0 {
+					act["published"] = note["published"]
+				}
+				items[k] = act
+			}
+		}
+		if asActor {
+			serve(h, root+"/actor", map[string]any{"type": "Person", "name": "src", "preferredUsername": "src", "outbox": h.URL(root)}, 0)
+			inputs[i] = actorURL
 		}
 		/* the listed-first source answers last more often than not */
 		delay := time.Duration(rng.Intn(8)) * time.Millisecond
@@ -286,6 +340,15 @@ func TestVerifSplice(t *testing.T) {
 	for i := 0; i < in.Random; i++ {
 		sid++
 		verifRun(out, sid, verifRandom(rng))
+	}
+	/* a share of the sessions with every call made twice at the same time */
+	for i := 0; i < len(in.Sessions); i += 1 + len(in.Sessions)/(2*in.Served) {
+		sid++
+		verifRunTwice(out, sid, in.Sessions[i], true)
+	}
+	for i := 0; i < in.Served; i++ {
+		sid++
+		verifRunTwice(out, sid, verifRandom(rng), true)
 	}
 	/* a share of the sessions again through NewSplicer over served collections */
 	sim := verifsim.Get()
